@@ -132,7 +132,12 @@ def parse_events(logpath, cwd):
 
 
 def path_class(rel, out_rel):
-    """Names a sandbox path relative to the output path: the unit of the signature."""
+    """Names a sandbox path relative to the output path: the unit of the signature (runs of digits such
+    as pids are normalised)."""
+    return re.sub(r"\d{3,}", "N", _path_class(rel, out_rel))
+
+
+def _path_class(rel, out_rel):
     od, on = os.path.split(out_rel)
     d, n = os.path.split(rel)
     stem = on.rsplit(".", 1)[0] if "." in on.lstrip(".") and not on.startswith(".") or on.count(".") > 1 else on
